@@ -296,9 +296,20 @@ class TRig:
         with patched_clock(self.world.clock):
             self.spa.start_connect()
 
-    def connect(self, timeout=40.0):
+    def connect(self, timeout=40.0, early=None):
+        """early = (k, datagram): the datagram arrives from the spa right after the client's k-th datagram."""
         self.start()
         t0 = self.world.now()
+        self.early_injected = False
+        if early is not None:
+            k, datagram = early[0], early[1]
+            delay = early[2] if len(early) > 2 else 0.0
+            self.world.run_until(t0 + timeout, pred=lambda: self.spa._is_connected or len(self.client_sent) >= k)
+            if not self.spa._is_connected and delay:
+                self.world.run_until(self.world.now() + delay, pred=lambda: self.spa._is_connected)
+            if not self.spa._is_connected:
+                self.inject(datagram)
+                self.early_injected = True
         self.world.run_until(t0 + timeout, pred=lambda: self.spa._is_connected)
         return self.spa._is_connected
 
